@@ -6,6 +6,7 @@ import (
 	"context"
 	"errors"
 	"fmt"
+	"io"
 	"strings"
 	"unsafe"
 
@@ -129,6 +130,29 @@ func c16ParseRows(l *c16Log) wire.ParseFn {
 	}
 }
 
+// c16ParseCopy: the statement copies in; it is "running" from its start until the client completed the copy.
+func c16ParseCopy(l *c16Log) wire.ParseFn {
+	return func(ctx context.Context, q string) (wire.PreparedStatements, error) {
+		cn := connName(ctx)
+		return wire.Prepared(wire.NewStatement(func(ctx context.Context, w wire.DataWriter, p []wire.Parameter) error {
+			sp := l.begin(cn, "statement")
+			defer l.finish(sp)
+			cr, err := w.CopyIn(wire.TextFormat)
+			if err != nil {
+				return err
+			}
+			for {
+				if err := cr.Read(); err != nil {
+					if err == io.EOF {
+						return w.Complete("COPY")
+					}
+					return err
+				}
+			}
+		}, wire.WithColumns(wire.Columns{{Name: "a", Oid: 25}}))), nil
+	}
+}
+
 // c16Parse: parser and statement function contain explicit yield points so a handler is never atomic.
 func c16Parse(l *c16Log) wire.ParseFn {
 	return func(ctx context.Context, q string) (wire.PreparedStatements, error) {
@@ -153,6 +177,7 @@ type c16Conn struct {
 }
 
 type c16Spec struct {
+	copyIn bool // the statement performs COPY-in (its handler blocks on client input)
 	acceptFault bool // the listener reports an Accept error while a connection is being served
 	midFrame    bool // the statement writes a row whose value yields to the scheduler while it is being encoded
 	name        string
@@ -178,6 +203,8 @@ func c16Specs() []c16Spec {
 		{name: "X6", conns: []c16Conn{{"c1", [][]byte{start, batch}}}, closers: 1, desc: "extended batch Parse/Bind/Execute/Sync + Close"},
 		{name: "X7", conns: []c16Conn{{"c1", [][]byte{start, pgproto.Cat(pgproto.Bind("", "nope", nil, nil, nil), pgproto.Execute("", 0), pgproto.Describe('S', ""), pgproto.Sync()), q}}}, closers: 1,
 			desc: "a failed extended message followed by discarded messages, a Sync and a Query + one Close (every admitted command must be released again)"},
+		{name: "X9", conns: []c16Conn{{"c1", [][]byte{start, pgproto.Query("copy"), pgproto.CopyData([]byte("a\n")), pgproto.CopyDone()}}}, closers: 1, copyIn: true,
+			desc: "a statement inside COPY-in (blocked reading from the client between chunks) + Close: Close waits until the copy has been completed by the client"},
 		{name: "X8", conns: []c16Conn{{"c1", [][]byte{start, q}}}, closers: 1, acceptFault: true,
 			desc: "the listener fails with an Accept error (Serve returns it) while a connection is inside a handler, then Close"},
 	}
@@ -194,6 +221,9 @@ func c16Scenario(spec c16Spec) *Scenario {
 				parse := c16Parse(log)
 				if spec.midFrame {
 					parse = c16ParseRows(log)
+				}
+				if spec.copyIn {
+					parse = c16ParseCopy(log)
 				}
 				srv, err := wire.NewServer(parse, wire.Logger(harness.Quiet), wire.MessageBufferSize(1<<12))
 				if err != nil {
